@@ -625,7 +625,7 @@ def rand_coeff(rng, style=None):
     """(value, style); Python int/float/complex only"""
     style = style or rng.choice(
         ["int", "float", "float", "short", "complex", "complex", "zero_imag", "imag", "negzero_real",
-         "expfmt", "tiny", "tiny_part", "large", "zero", "npfloat"])
+         "expfmt", "tiny", "tiny_part", "large", "zero", "npfloat", "longtext"])
     s = rng.choice([-1, 1])
     if style == "int":
         v = s * rng.randint(1, 50)
@@ -653,6 +653,26 @@ def rand_coeff(rng, style=None):
     elif style == "large":
         v = rng.choice([s * rng.uniform(1e9, 9.9e14), s * rng.randint(10**12, 9 * 10**14),
                         complex(rng.uniform(1e9, 6e14), -rng.uniform(1e9, 6e14)), 2**49 + 1, 999999999999999.9])
+    elif style == "longtext":
+        # numbers whose printed form is as LONG as a float's can be: 17 significant digits behind up to four leading
+        # zeros (positional notation reaches down to 1e-4), or with a two- or three-digit exponent, either sign, as
+        # the real part, the imaginary part or both ("(2.5+0.00012345678901234567j)" is 29 characters)
+        def long_part(lead):
+            m = rng.uniform(1, 10)
+            while len(repr(m)) < 17:
+                m = rng.uniform(1, 10)
+            return rng.choice([-1, 1]) * m * 10.0 ** rng.choice(lead)
+        small = [-1, -2, -3, -4, -5, -11, -12, -100, -300]
+        big = [0, 0, -1, -2, -3, -4, -5, 2, 11]
+        r = rng.random()
+        if r < 0.25:
+            v = long_part(big)
+        elif r < 0.6:
+            v = complex(long_part(big), long_part(small))
+        elif r < 0.8:
+            v = complex(long_part(small), long_part(big))
+        else:
+            v = complex(rng.choice([2.5, -1.0, 0.5, 0.0]), long_part([-3, -4, -4, -5]))
     elif style == "zero":
         v = rng.choice([0, 0.0, -0.0, 0j, complex(-0.0, -0.0)])
     elif style == "npfloat":  # numpy's float / complex subclasses
